@@ -832,8 +832,8 @@ func c08PartHistories(minRecs, maxRecs, liesMax int, f func(c08Part) bool) {
 }
 
 type c08Bounds struct {
-	FamA, FamALies, FamB, FamBLies, FamC0, FamC1 int // record bounds per family
-	MaxDelFail                                   int
+	FamA, FamALies, FamB, FamBLies, FamCEach, FamCTotal int // record bounds per family
+	MaxDelFail                                          int
 }
 
 var c08BaseCfg = c08Cfg{FracUs: 0, Interval: 1, Start: 0}
@@ -869,24 +869,35 @@ func c08Histories(b c08Bounds, f func(c08Case) bool) {
 			}
 		}
 	}
-	// family C: two partitions (partition 0 may be empty), honest headers, every filter
-	var p1s []c08Part
-	c08PartHistories(1, b.FamC1, 0, func(p c08Part) bool { p1s = append(p1s, p); return true })
-	p0s := []c08Part{{}}
-	c08PartHistories(1, b.FamC0, 0, func(p c08Part) bool { p0s = append(p0s, p); return true })
-	for _, p0 := range p0s {
-		for _, p1 := range p1s {
-			for _, fl := range [][]int32{nil, {0}, {1}} {
-				if !f(c08Case{Cfg: c08BaseCfg, Parts: []c08Part{p0, p1}, Filter: fl}) {
-					return
+	// family C: two partitions (partition 0 may be empty), honest headers, every filter;
+	// n0 <= FamCEach, 1 <= n1 <= FamCEach, n0+n1 <= FamCTotal records
+	byN := make([][]c08Part, b.FamCEach+1)
+	byN[0] = []c08Part{{}}
+	for n := 1; n <= b.FamCEach; n++ {
+		c08PartHistories(n, n, 0, func(p c08Part) bool { byN[n] = append(byN[n], p); return true })
+	}
+	for total := 1; total <= b.FamCTotal; total++ {
+		for n1 := 1; n1 <= b.FamCEach && n1 <= total; n1++ {
+			n0 := total - n1
+			if n0 > b.FamCEach {
+				continue
+			}
+			for _, p0 := range byN[n0] {
+				for _, p1 := range byN[n1] {
+					for _, fl := range [][]int32{nil, {0}, {1}} {
+						if !f(c08Case{Cfg: c08BaseCfg, Parts: []c08Part{p0, p1}, Filter: fl}) {
+							return
+						}
+					}
 				}
 			}
 		}
 	}
 }
 
-// c08Faults calls f with every fault placement for one history, given the fault-free trace and the
-// number of clean-up deletes each failing run issues (discovered by running it).
+// c08ExploreHistory runs one history fault-free, then once per failing copy call (puts in both
+// failure modes), and each failing run again with every subset of <= maxDelFail of the clean-up
+// deletes it issued made to fail. visit receives every execution.
 func c08ExploreHistory(c *c08Case, maxDelFail int, visit func(f c08Fault, r c08Result)) error {
 	src, err := c08BuildSource(c)
 	if err != nil {
@@ -960,14 +971,14 @@ func TestVerifC08(t *testing.T) {
 		return
 	}
 
-	b := c08Bounds{FamA: 4, FamALies: 3, FamB: 3, FamBLies: 2, FamC0: 2, FamC1: 2, MaxDelFail: 1}
+	b := c08Bounds{FamA: 4, FamALies: 3, FamB: 3, FamBLies: 2, FamCEach: 2, FamCTotal: 4, MaxDelFail: 1}
 	if vh.Thorough() {
-		b = c08Bounds{FamA: 5, FamALies: 4, FamB: 4, FamBLies: 3, FamC0: 3, FamC1: 2, MaxDelFail: 2}
+		b = c08Bounds{FamA: 5, FamALies: 4, FamB: 3, FamBLies: 3, FamCEach: 3, FamCTotal: 4, MaxDelFail: 2}
 	}
 	rep.SetInfo("records_per_partition_max", map[string]int{
 		"familyA_single_partition_base_cfg_honest": b.FamA, "familyA_with_one_lying_header": b.FamALies,
 		"familyB_single_partition_all_cfg_x_filters_honest": b.FamB, "familyB_with_one_lying_header": b.FamBLies,
-		"familyC_two_partitions_p0_honest": b.FamC0, "familyC_two_partitions_p1_honest": b.FamC1})
+		"familyC_two_partitions_each_honest": b.FamCEach, "familyC_two_partitions_total": b.FamCTotal})
 	rep.SetInfo("layout", "<=3 segments x <=2 batches x <=3 records per partition")
 	rep.SetInfo("timestamps", "segment createdAt and every record timestamp in {T-1,T,T+1} ms; T in {exact ms, +500us}")
 	rep.SetInfo("lying_header", "at most one batch per history with maxTimestamp header in {T-1,T,T+1} != true maximum (families A,B up to the stated record bound)")
